@@ -1,13 +1,8 @@
 """C15 — macro templates expand by exact substitution."""
 import json
 import os
-import re
 
 from .common import Check
-
-# a negative number literal directly after a reader prefix (^ ~ ~@ %)
-NEGNUM = re.compile(r"[\^~@%]-[0-9.]")
-
 
 def joined(cases, mout):
     with open(cases) as f, open(mout) as g:
@@ -28,7 +23,9 @@ def replay_program(inp, pools):
     if kind.startswith("sq:"):
         epoch, _, src = f[1].partition(" ")
         prog = list(pools.get(epoch, []))
-        if kind == "sq:api":
+        if kind == "sq:twice":
+            prog.append(src)   # c15rec is a host function of the harness: records the value, then updates arrays/hashes in place
+        elif kind == "sq:api":
             prog.append("; template built with Go constructors: (syntaxQuote T), T = " + f[3])
         else:
             prog.append(src)
@@ -70,9 +67,6 @@ def main(argv):
                     if flags == "hash-long-splice" and impl == model and inp.startswith("sq:") and \
                             c.known_finding("hash-splice-reversed", ex):
                         continue
-                    if "READER-MISMATCH" in spec and NEGNUM.search(src) and \
-                            c.known_finding("negnum-after-prefix", ex):
-                        continue
                     prop_fail.append({"input": inp, "implementation": impl, "specification": spec, "model": model,
                                       "replay_program": replay_program(inp, pools)})
                 elif impl != model:
@@ -88,6 +82,8 @@ def main(argv):
         key = f["input"].split("|")[0]
         if key.startswith("call"):
             key = "call:" + f["input"].split("|")[2]
+        if key == "sq:twice":
+            key += ":" + f["implementation"].split(" ")[0]
         if key in seen or len(seen) >= 6:
             continue
         seen.add(key)
